@@ -147,6 +147,8 @@ def cases():
         ("other_than_self", "lambda this: True", ("create", "ValueError")),
         ("two_others", "lambda a, b: True", ("create", "ValueError")),
         ("coroutine_function", "acond", ("create", "ValueError")),
+        ("partial_of_coroutine_function", "functools.partial(acond)", ("create", "ValueError")),
+        ("partial_of_coroutine_function_with_bound_keyword", "functools.partial(acond2, flag=True)", ("create", "ValueError")),
         ("only_var_positional", "lambda *args: True", ("create", "ValueError")),
         ("self_and_var_positional", "lambda self, *others: True", ("create", "ValueError")),
         ("self_and_var_keyword", "lambda self, **kw: True", ("create", "ValueError")),
@@ -166,7 +168,7 @@ def cases():
 def run_case(case, acc):
     label = case["label"]
     feats = {"label": label.split("/")[0], "kind": case["kind"], "misuse": case["misuse"], "decorators": "+".join(case["decos"])}
-    ns = core.load_source(HDR + "async def acond(self):\n    return True\n", "c19")
+    ns = core.load_source(HDR + "async def acond(self):\n    return True\nasync def acond2(self, flag=False):\n    return True\n", "c19")
     stage, exc = "ok", None
     try:
         def go():
